@@ -1,19 +1,19 @@
-SPECIFICATION Spec
+SPECIFICATION FairSpec
 CONSTANTS
   Scripts <- ScriptsVal
   Table <- TableVal
   StrictFin = TRUE
-  NV = 2
-  MaxBody = 2
-  MaxOps = 3
-  MaxOut = 1
+  NV = 3
+  MaxBody = 3
+  MaxOps = 0
+  MaxOut = 2
   MaxSpin = 1
-  Sync = TRUE
-  Live = FALSE
-  Mode = "free"
-  CancelInLoop = FALSE
+  Sync = FALSE
+  Live = TRUE
+  Mode = "loop"
+  CancelInLoop = TRUE
   DropCancels = FALSE
   Emit = FALSE
 INVARIANTS TypeOK ContractHolds AtMostOnce ResultOnlyAfterEnd FinalValueAfterResult MonotoneObserved FlagOnlyByCancel
-VIEW ViewNoHist
+PROPERTIES LoopDelivers CancelTerminates
 CHECK_DEADLOCK FALSE
